@@ -14,7 +14,7 @@ PROP = {'technique': 'property-based testing (rapid): generated rule files and l
          'universe of names and addresses so rules overlap, mixed with motifs a rule-merging optimiser would exploit: runs of 2-6 '
          'adjacent same-action IP/CIDR rules with nested / overlapping / duplicated / single-address members (v4 and v6, /0 .. /32'
          '|/128, sorted or unsorted) followed by a wider network under another action, runs of adjacent same-action domain rules o'
-         'f one family, a port-limited all early in the list, a catch-all last (up to 18 lines); one witness lookup per rule is appended to every sequence; 1 case in 40 has one line longer than 64 KiB (comment / rule padded with blanks / trailing comment); queries aimed at a rule (match / near miss at label, bit and port boundaries; for networks also a random inside address, first/last address, the address before/after) '
+         'f one family, a port-limited all early in the list, a catch-all last (up to 18 lines); one witness lookup per rule is appended to every sequence; about 1 case in 6 ends with 2-4 lookups whose host names share a 63/64/255/256/300/1000-byte label prefix and differ only in the tail, then the first again; 1 case in 40 has one line longer than 64 KiB (comment / rule padded with blanks / trailing comment); queries aimed at a rule (match / near miss at label, bit and port boundaries; for networks also a random inside address, first/last address, the address before/after) '
          'or from the universe, as fresh / one-component mutation / repeat (possibly respelled). Non-trivial (Match): a repeat after an '
          'eviction-forcing number of distinct lookups AND a query matched by >=2 rules with different results. Non-trivial (Engine): a '
          'cache hit AND such a query; (EngineEvict): a re-asked probe after >=1024 other distinct requests, >1024 distinct requests in '
@@ -26,7 +26,7 @@ PROP = {'technique': 'property-based testing (rapid): generated rule files and l
                  'spelling of the same lookup on a fresh one; patterns are ASCII and may contain xn-- text',
                  'no IPv4-mapped IPv6 addresses in rules, hijack addresses or queries; the IPv4 field holds an IPv4 address (4- or 16-byte '
                  'form), the IPv6 field a non-mapped IPv6 address',
-                 'host names are ASCII with at most one trailing dot; an IP-literal host name only occurs together with the same address '
+                 'host names are ASCII (up to ~1 KiB) with at most one trailing dot; an IP-literal host name only occurs together with the same address '
                  'in the resolved-IP field (the server always puts a resolver in front of the ACL engine, app/cmd/server.go)',
                  'keywords all, *, suffix: are written in lower case, domain parts / outbound names / tcp|udp in any case',
                  'engine level: the outbound list is non-empty, names distinct, and "direct" is used in rules only when the list overrides '
